@@ -53,27 +53,41 @@ class Session:
         self.records = [cfg.record(), {"ev": "reset"}]
         self.frames = []          # (frame bytes) parallel to records[2:]
         self.dead = False
+        self.panics = 0
         driver.configure(cfg)
         driver.reset()
 
     def send(self, frames, chain=0, grp=0, timeout=120):
-        """Run frames; returns the observations (dicts with out/rep/tcb/log)."""
-        if self.dead:
-            return []
+        """Run frames; returns the observations (dicts with out/rep/tcb/log), one per frame.
+        An abort of the responder is recorded as such; the driver is then restarted (empty
+        connection table, recorded as a reset) and the remaining frames are still run."""
         frames = [bytes(f) for f in frames]
-        obs = self.driver.run(frames, timeout=timeout)
-        for i, o in enumerate(obs):
-            rep = bytes(o["rep"])
-            ch = chain[i] if isinstance(chain, (list, tuple)) else chain
-            gr = grp[i] if isinstance(grp, (list, tuple)) else grp
-            rec = {"ev": "frame", "req": o["req"], "out": o["out"], "rep": o["rep"], "tcb": o["tcb"],
-                   "log": o["log"], "aux": make_aux(frames[i], rep, ch, gr)}
-            if o["out"] == "panic":
-                rec["panic"] = o.get("panic", "")
-                self.dead = True
-            self.records.append(rec)
-            self.frames.append(frames[i])
-        return obs
+        all_obs = []
+        pos = 0
+        while pos < len(frames):
+            obs = self.driver.run(frames[pos:], timeout=timeout)
+            for i, o in enumerate(obs):
+                k = pos + i
+                rep = bytes(o["rep"])
+                ch = chain[k] if isinstance(chain, (list, tuple)) else chain
+                gr = grp[k] if isinstance(grp, (list, tuple)) else grp
+                rec = {"ev": "frame", "req": o["req"], "out": o["out"], "rep": o["rep"], "tcb": o["tcb"],
+                       "log": o["log"], "aux": make_aux(frames[k], rep, ch, gr)}
+                if o["out"] == "panic":
+                    rec["panic"] = o.get("panic", "")
+                    self.panics += 1
+                self.records.append(rec)
+                self.frames.append(frames[k])
+            all_obs += obs
+            pos += len(obs)
+            if obs and obs[-1]["out"] == "panic":
+                self.driver.configure(self.cfg)      # fresh process
+                self.driver.reset()
+                self.records.append({"ev": "reset"})
+                self.frames.append(None)
+            elif not obs:
+                break
+        return all_obs
 
     def reset(self):
         if not self.dead:
